@@ -434,6 +434,8 @@ func (r *Rule) transformArg(arg types.MatchData, argIdx int, cache map[transform
 		// NOTE: See comment on transformationKey struct to understand this hacky code
 		argKey := arg.Key()
 		argKeyPtr := unsafe.StringData(argKey)
+		argValue := arg.Value()
+		argValuePtr := unsafe.StringData(argValue)
 
 		// Search from longest prefix (full chain) backwards for a cache hit.
 		// Best case: full chain cached → single map lookup, done.
@@ -446,6 +448,8 @@ func (r *Rule) transformArg(arg types.MatchData, argIdx int, cache map[transform
 			key := transformationKey{
 				argKey:            argKeyPtr,
 				argIndex:          argIdx,
+				argValue:          argValuePtr,
+				argValueLen:       len(argValue),
 				argVariable:       arg.Variable(),
 				transformationsID: r.transformationPrefixIDs[i],
 			}
@@ -476,6 +480,8 @@ func (r *Rule) transformArg(arg types.MatchData, argIdx int, cache map[transform
 			key := transformationKey{
 				argKey:            argKeyPtr,
 				argIndex:          argIdx,
+				argValue:          argValuePtr,
+				argValueLen:       len(argValue),
 				argVariable:       arg.Variable(),
 				transformationsID: r.transformationPrefixIDs[i],
 			}
